@@ -266,7 +266,11 @@ def _check_init(repo, r1, r3, init):
         forms = [("bool", "Or", (L0, m)) for m in minimal] + [("ifexp", L0, L0, m) for m in minimal]
         explicit = ps.has(lambda k, t: (k == ("truth", entry(lp)) and t) or (k[0] == "==" and "0" in k[1:] and entry(lp) in k[1:] and not t))
         absent = ps.has(lambda k, t: (k == ("truth", entry(lp)) and not t) or (k[0] == "==" and "0" in k[1:] and entry(lp) in k[1:] and t))
-        if not (ln in forms or (explicit and ln == L0) or (absent and ln in minimal)):
+        # the conditional "bit_length if value > 0 else 0" may also have been taken apart into branches
+        positive = ps.has(lambda k, t: k[0] == "<" and k[1] == "0" and k[2] in (vp, entry(vp)) and t)
+        nonpositive = ps.has(lambda k, t: k[0] == "<" and k[1] == "0" and k[2] in (vp, entry(vp)) and not t)
+        split_ok = absent and ((positive and ln == bl(val)) or (nonpositive and ln == ("const", 0)))
+        if not (ln in forms or (explicit and ln == L0) or (absent and ln in minimal) or split_ok):
             ok_len = False
     r1.require(bool(paths) and ok_len, init, "minimal width from bit_length; explicit length wins",
                "Bitset.__init__ derives the width as %s; it must be the explicit length, else value.bit_length()" % (S.show(shown)[:120] if shown else None))
